@@ -6,14 +6,22 @@ import "xkvverif/internal/core"
 var Registry = map[string]func(*core.Prog, *core.Report){
 	"C01": C01,
 	"C02": C02,
+	"C03": C03,
 	"C04": C04,
 	"C05": C05,
+	"C06": C06,
+	"C07": C07,
 	"C08": C08,
 	"C09": C09,
+	"C10": C10,
 	"C11": C11,
 	"C12": C12,
 	"C13": C13,
+	"C14": C14,
 	"C15": C15,
 	"C16": C16,
 	"C17": C17,
+	"C18": C18,
+	"C19": C19,
+	"C20": C20,
 }
